@@ -33,12 +33,13 @@ type case = {
   mutable final : (path * string option) list;       (* None = dir, Some hex = file *)
   mutable result : string;
   mutable dev : n;
+  mutable prog : (int * int * int * int) list;       (* the progress lines printed: success, failed, faulted, total (reversed) *)
   mutable links : path list;                         (* names that are symbolic links to a regular file: opened by path like any name, never listed by a directory walk *)
 }
 
 let new_case () = { id = ""; torrents = []; scans = []; export = URel; resize = false;
                     fs0 = { fs_nodes = []; fs_data = [] }; pre = []; nodes = []; searches = []; work = []; pev = []; pend = [];
-                    final = []; result = ""; dev = N0; links = [] }
+                    final = []; result = ""; dev = N0; links = []; prog = [] }
 
 let probe_of_string s =
   match String.split_on_char ':' s with
@@ -140,8 +141,9 @@ let validate (c : case) : string =
     end else begin
     (* 3. index: registered set, then ranking / pruning with the observed iteration order *)
     let lens = unique_lengths es in
+    let abs_scans = List.filter_map (function UAbs sp -> Some sp | URel -> None) scans in
     let files_under = List.filter_map (fun (p, nd) -> match nd with
-        | NFile i when List.exists (fun s -> match s with UAbs sp -> starts_with sp p | URel -> false) scans && not (List.mem p c.links) ->
+        | NFile i when under_of abs_scans p && not (List.mem p c.links) ->
             Some { l_path = p; l_id = (c.dev, i); l_len = n_of_int (List.length (fs_content !fs i)) }
         | _ -> None) (dedup_keys [] (!fs).fs_nodes) in
     let scan_regs = List.filter_map (scan_registers lens) files_under in
@@ -232,6 +234,25 @@ let validate (c : case) : string =
         | _ -> bad "%s: kind differs between the final tree and the model file system" (show_path p)) c.final;
     List.iter (fun (p, _) -> if not (List.exists (fun (q, _) -> q = p) c.final) && c.final <> [] && List.exists (fun (q, _) -> starts_with q p && q <> p) c.final then
                   bad "%s exists in the model file system but not after the run" (show_path p)) model_nodes;
+    (* 8. the progress report: every printed line is [count] (RunModel) of the line before it for one outcome, starting
+       from zero counters with the model's number of pieces as the total; the outcomes so counted are the pieces' outcomes *)
+    if not crashed then begin
+      let lines = List.rev c.prog in
+      let c0 = { c_success = O; c_failed = O; c_fault = O; c_total = nat_of_int (List.length work) } in
+      let same a (s, f, ft, t) = int_of_nat a.c_success = s && int_of_nat a.c_failed = f && int_of_nat a.c_fault = ft && int_of_nat a.c_total = t in
+      let show (s, f, ft, t) = Printf.sprintf "Success: %d, Failed: %d, Faulted: %d, Total: %d" s f ft t in
+      let rec go cur acc = function
+        | [] -> List.rev acc
+        | l :: r ->
+          (match List.find_opt (fun o -> same (count cur o) l) [Success; Failed; Fault] with
+           | Some o -> go (count cur o) (o :: acc) r
+           | None -> bad "progress line %d (%s) is not the previous counters plus one piece (total %d pieces in the model)" (List.length acc + 1) (show l) (List.length work)) in
+      let os = go c0 [] lines in
+      if not (List.for_all2 same (progress c0 os) lines) then bad "progress lines are not [progress] of the counted outcomes";
+      let counted = List.sort compare (List.map outcome_string os) and ends = List.sort compare (List.map snd c.pend) in
+      if counted <> ends then
+        bad "the progress lines count [%s], the pieces ended with [%s]" (String.concat "," counted) (String.concat "," ends)
+    end;
     let count s = List.length (List.filter (fun x -> x = s) !summary) in
     Printf.sprintf "ok pieces=%d success=%d failed=%d fault=%d" (List.length work) (count "success") (count "failed") (count "fault")
     end end
@@ -254,6 +275,7 @@ let validate_cmd () =
         !c.dev <- n_of_string dev;
         !c.fs0 <- set_data (set_node !c.fs0 (path_of_string p) (NFile (n_of_string ino))) (n_of_string ino) (bytes_of_hex data)
     | ["fslink"; p] -> !c.links <- path_of_string p :: !c.links
+    | ["progress"; a; b; d; t] -> !c.prog <- (int_of_string a, int_of_string b, int_of_string d, int_of_string t) :: !c.prog
     | "pre" :: seq :: ev -> !c.pre <- (int_of_string seq, parse_event ev) :: !c.pre
     | "nodes" :: l :: rest ->
         let ns = List.map (fun s -> match String.split_on_char '=' s with
